@@ -229,3 +229,7 @@ def gen(ctx):
 
 
 UNITS = [Unit("split_and_raise", gen, check, shards=(4, 16))]
+
+
+from vlib import clidiff
+UNITS.append(clidiff.unit("C05"))
